@@ -207,7 +207,7 @@ def canon(text):
     t = re.sub(r",0x1$", ",1", t)   # shift/rotate by 1: the imm8 form and the by-one form mean the same
     # `movabs r64, imm64` (B8+r) and `mov r64, simm32` (C7 /0) with the same 64-bit value are the same instruction in another
     # encoding (AsmJit's long form option selects the former); objdump prints the full 64-bit value for both
-    t = re.sub(r"^movabs (r[a-z0-9]+),(0x[0-9a-f]+)$", r"mov \1,\2", t)
+    t = re.sub(r"^movabs (r[a-z0-9]+),(0x[0-9a-f]+|1)$", r"mov \1,\2", t)
     m = re.match(r"^((?:[a-z0-9]+ )*)(xchg|test) ([^,]+),(.+)$", t)
     if m:
         a, b = sorted([m.group(3).strip(), m.group(4).strip()])
